@@ -18,7 +18,7 @@ META = {
         'and the progress handler is reset in a finally; R4 scanning, pre-check and parsing complete before the '
         'transaction block is entered; R5 connect() only hands out the pooled connection. SQLite\'s own rollback '
         'is trusted. R6 the add/remove route keeps no state outside the database (nothing a rollback cannot undo). '
-        'R7 every writing statement starts with INSERT/UPDATE/DELETE/REPLACE, the keywords for which sqlite3 opens its implicit transaction. R8 no progress callback follows the transaction block of add / remove (a handler raising there fails the call after the commit).'),
+        'R7 every writing statement starts with INSERT/UPDATE/DELETE/REPLACE, the keywords for which sqlite3 opens its implicit transaction. R8 no progress callback follows the transaction block of add / remove (a handler raising there fails the call after the commit). R9 the callables registered with set_progress_handler (ProgressHandler.update and its overrides) return None on every path.'),
     'decides': ['one transaction per resource', 'no commit point inside', 'failures propagate', 'remove is one '
                 'transaction per lexicon', 'parse before write', 'pooled connection', 'no state outside the transaction'],
     'not_decided': ['correctness of SQLite rollback', 'crash (power loss) durability: PRAGMA synchronous=OFF is outside the property'],
